@@ -333,6 +333,19 @@ def structural_guards(repo):
                         used = True
         out.append({'id': 'with-guard:%s' % qn, 'kind': 'inventory', 'ok': used,
                     'label': 'give-up guard in place: %s runs under %s' % (qn, cm)})
+    # the two recursive followers of import names carry the set of names already on the path
+    for rel, qn, needles, what in (
+            ('jedi/api/helpers.py', 'filter_follow_imports', ['if key in _followed:', '_followed=_followed + (key,)'],
+             'follow_imports stops when an import name that is being followed comes up again (import cycles)'),
+            ('jedi/inference/references.py', '_resolve_names', ['if name in avoid_names:',
+                                                                 'tuple(avoid_names) + tuple(definition_names)'],
+             'the reference search avoids every module name seen on the way, not only those of the previous step')):
+        t = tree_of(rel)
+        fn = _find(t, qn) if t is not None else None
+        src = ' '.join(ast.unparse(fn).split()) if fn is not None else ''
+        out.append({'id': 'cycle-guard:%s' % qn, 'kind': 'inventory',
+                    'ok': (all(' '.join(n.split()) in src for n in needles)) if fn is not None else None,
+                    'label': 'give-up guard in place: ' + what})
     # every Script query starts by resetting the budgets (directly or through another Script method)
     t = tree_of('jedi/api/__init__.py')
     if t is not None:
